@@ -38,6 +38,7 @@ def true_distances(probe, theta, standoff):
 
 
 def run(ctx):
+    fixtures.check_time_objects(ctx)
     import arim
     from arim import measurement
 
